@@ -1,3 +1,126 @@
-From Thunder Require Import Limiter.Model.
-Theorem placeholder : True. Proof. exact I. Qed.
-Print Assumptions placeholder.
+(* C20 - Concurrency limiter: never more than the limit running, no token is lost.
+
+   Model: Limiter/Model.v, a labelled transition system with one label per atomic operation of
+   concurrencylimiter.go (channel send / receive, Swap, CompareAndSwap, the ctx.Done branch), and a
+   maximally general client (any goroutine may call Acquire, any existing holder's release function or
+   TemporarilyRelease at any time, any number of times; any Acquire's context may be cancelled at any
+   time).  A schedule is a list of labels; [run fx (init n) tr = Some s] says that s is reached from the
+   empty limiter of capacity n by the schedule tr.  [fx = true] is the repaired order of block()'s
+   re-acquire (send, then CAS; patches/C20-fix-1.patch), [fx = false] the original order (CAS, then send).
+   All statements are for every capacity n, every schedule tr and every state reached, without bound. *)
+From Coq Require Import List Arith.
+From Thunder Require Import Limiter.Model Limiter.Proofs.
+Import ListNotations.
+
+(* No token is lost or duplicated: the channel holds exactly one token per holder whose status is
+   acquired, plus one per call that sits between its status change and its channel operation
+   (release after Swap, block after the first CAS, re-acquire after its send). *)
+Theorem token_accounting : forall n tr s,
+  run true (init n) tr = Some s -> chan s = owed s /\ chan s <= n.
+Proof. exact token_accounting_lemma. Qed.
+Print Assumptions token_accounting.
+
+(* At most n goroutines are between Acquire and release, not counting TemporarilyRelease.  Three counts,
+   each <= n:  [believes_running] is the goroutines' own view, defined without looking at the status words
+   (holders returned by Acquire whose release function has not been called and on which no
+   TemporarilyRelease call is in progress);  [count is_acq] the holders whose status is acquired;
+   [running] DESIGN A.1's count (status acquired and nobody inside block() on it). *)
+Theorem running_le_limit : forall n tr s,
+  run true (init n) tr = Some s ->
+  believes_running s <= n /\ count is_acq (holders s) <= n /\ running s <= n.
+Proof. exact running_le_limit_lemma. Qed.
+Print Assumptions running_le_limit.
+
+(* release is idempotent, also during a temporary release: per holder at most one release call ever takes
+   a token; a call that finds the holder released changes nothing but its own program counter; and
+   released is final. *)
+Theorem release_idempotent : forall n tr s,
+  run true (init n) tr = Some s ->
+  (forall h, count (rel_took h) (threads s) <= 1) /\
+  (forall t h, nth_error (threads s) t = Some (R0 h) -> nth_error (holders s) h = Some Rel ->
+     step true s (LRelSwap t) = Some (set_thread s t (RDone h false))) /\
+  (forall h l s', nth_error (holders s) h = Some Rel -> step true s l = Some s' ->
+     nth_error (holders s') h = Some Rel).
+Proof. exact release_idempotent_lemma. Qed.
+Print Assumptions release_idempotent.
+
+(* Quiescence (every call has returned): the channel holds exactly one token per holder not yet released,
+   no holder is left blocked, a released holder is one whose release function was called, and when all
+   holders are released the channel is empty: the full capacity is available again. *)
+Theorem quiescent_full_capacity : forall n tr s,
+  run true (init n) tr = Some s -> quiescent s = true ->
+  chan s = count is_acq (holders s) /\
+  (forall h, nth_error (holders s) h <> Some Blk) /\
+  (forall h, nth_error (holders s) h = Some Rel -> existsb (release_called h) (threads s) = true) /\
+  ((forall h st, nth_error (holders s) h = Some st -> st = Rel) -> chan s = 0).
+Proof. exact quiescent_lemma. Qed.
+Print Assumptions quiescent_full_capacity.
+
+(* Acquire on a cancelled context, or on a context without limiter, has an enabled step that returns the
+   no-op release function and touches neither the channel nor any holder (in every state, hence in every
+   reachable one, of either variant). *)
+Theorem acquire_never_blocks_cancelled_or_unlimited : forall fx s t lim c,
+  nth_error (threads s) t = Some (A0 lim c) -> lim = false \/ c = true ->
+  exists l s', step fx s l = Some s' /\ nth_error (threads s') t = Some (ADone None) /\
+               chan s' = chan s /\ holders s' = holders s.
+Proof. exact acquire_nonblocking_lemma. Qed.
+Print Assumptions acquire_never_blocks_cancelled_or_unlimited.
+
+(* The receives of release, of block and of the repaired re-acquire never wait: the token is there. *)
+Theorem receives_never_block : forall n tr s t h,
+  run true (init n) tr = Some s ->
+  (nth_error (threads s) t = Some (R1 h) -> exists s', step true s (LRelRecv t) = Some s') /\
+  (nth_error (threads s) t = Some (B1 h) -> exists s', step true s (LBlkRecv t) = Some s') /\
+  (nth_error (threads s) t = Some (B3f h) -> exists s', step true s (LBlkGiveBack t) = Some s').
+Proof. exact receives_never_block_lemma. Qed.
+Print Assumptions receives_never_block.
+
+(* Swap and the CompareAndSwaps are enabled whenever a call stands before them. *)
+Theorem atomics_enabled : forall n tr s t h,
+  run true (init n) tr = Some s ->
+  (nth_error (threads s) t = Some (R0 h) -> exists s', step true s (LRelSwap t) = Some s') /\
+  (nth_error (threads s) t = Some (B0 h) -> exists s', step true s (LBlkCas t) = Some s') /\
+  (nth_error (threads s) t = Some (B3s h) -> exists s', step true s (LBlkCas2 t) = Some s').
+Proof. exact atomics_enabled_lemma. Qed.
+Print Assumptions atomics_enabled.
+
+(* The same statements are false of the original order of operations (DESIGN F11): limit 1, the schedule
+   [f11_trace] (8 atomic operations, plus the labels that start calls and the return of f) reaches a state
+   with two holders acquired, two goroutines believing they run, and the token count broken. *)
+Theorem running_le_limit_original_refuted :
+  exists n tr s, run false (init n) tr = Some s /\
+                 n < running s /\ n < believes_running s /\ chan s <> owed s.
+Proof. exact original_refuted_lemma. Qed.
+Print Assumptions running_le_limit_original_refuted.
+
+(* ---- the hypotheses are satisfiable by non-trivial states ---- *)
+
+(* limit 2: two holders acquired; one inside TemporarilyRelease with its token given up and its release
+   function called meanwhile; a third goroutine acquired the freed slot: both slots used, running = 2 *)
+Example ex_trace : list label :=
+  [ LNewAcquire true false; LAcqSend 0; LNewAcquire true false; LAcqSend 1;
+    LNewBlock (Some 0); LBlkCas 2; LBlkRecv 2;
+    LNewAcquire true false; LAcqSend 3;
+    LNewRelease 0; LRelSwap 4;
+    LNewBlock (Some 0); LBlkCas 5 ].
+Example ex_reachable :
+  option_map (fun s => (chan s, owed s, running s, believes_running s, holders s)) (run true (init 2) ex_trace)
+  = Some (2, 2, 2, 2, [Rel; Acq; Acq]).
+Proof. vm_compute. reflexivity. Qed.
+
+(* ... and it can be driven to quiescence with everything released: channel empty *)
+Example ex_quiescent :
+  option_map (fun s => (quiescent s, chan s, holders s))
+    (run true (init 2) (ex_trace ++ [ LFRet 5; LFRet 2; LNewRelease 1; LRelSwap 6; LRelRecv 6;
+                                      LBlkSend 2; LBlkCas2 2; LBlkGiveBack 2;
+                                      LNewRelease 2; LRelSwap 7; LRelRecv 7; LNewRelease 2; LRelSwap 8 ]))
+  = Some (true, 0, [Rel; Rel; Rel]).
+Proof. vm_compute. reflexivity. Qed.
+
+(* a waiting Acquire whose context gets cancelled returns; on a full channel its send is not enabled *)
+Example ex_cancel :
+  option_map (fun s => (chan s, threads s))
+    (run true (init 1) [ LNewAcquire true false; LAcqSend 0; LNewAcquire true false; LCancel 1; LAcqCtxDone 1 ])
+  = Some (1, [ADone (Some 0); ADone None])
+  /\ run true (init 1) [ LNewAcquire true false; LAcqSend 0; LNewAcquire true false; LAcqSend 1 ] = None.
+Proof. vm_compute. split; reflexivity. Qed.
